@@ -59,6 +59,10 @@ type progResult struct {
 }
 
 func cfgByName(name string) idl.Config {
+	return idl.ConfigByName(name)
+}
+
+func cfgByNameOld(name string) idl.Config {
 	c := idl.CoreConfig()
 	for _, flag := range strings.Split(name, "+") {
 		switch flag {
@@ -77,6 +81,11 @@ func cfgByName(name string) idl.Config {
 	return c
 }
 
+var (
+	probMu        sync.Mutex
+	batchProblems = map[int][]string{}
+)
+
 var pkgErr = regexp.MustCompile(`(?m)^(?:vet: )?gen/(p\d+)/`)
 
 func main() {
@@ -91,7 +100,11 @@ func main() {
 	rng := run.Rand("c02-programs")
 	var specs []progSpec
 	for i := 0; i < nProgs; i++ {
-		specs = append(specs, progSpec{Sub: fmt.Sprintf("p%d", i), Seed: rng.Int63(), Cfg: "core"})
+		cfg := "core"
+		if i%2 == 1 {
+			cfg = "core+shadow" // same constructs, same-named typedefs in several files
+		}
+		specs = append(specs, progSpec{Sub: fmt.Sprintf("p%d", i), Seed: rng.Int63(), Cfg: cfg})
 	}
 	var batches [][]progSpec
 	for i := 0; i < len(specs); i += perBatch {
@@ -105,6 +118,7 @@ func main() {
 	sem := make(chan struct{}, 6)
 	var mu sync.Mutex
 	rejected, uncompilable := 0, 0
+	var firstProblems []string
 	totals := map[string]int{}
 	for bi, bs := range batches {
 		wg.Add(1)
@@ -117,6 +131,11 @@ func main() {
 			defer mu.Unlock()
 			rejected += rej
 			uncompilable += unc
+			probMu.Lock()
+			if len(firstProblems) < 4 {
+				firstProblems = append(firstProblems, batchProblems[bi]...)
+			}
+			probMu.Unlock()
 			if err != nil {
 				run.Inconclusive(fmt.Sprintf("batch %d: %v", bi, err))
 				return
@@ -156,12 +175,30 @@ func main() {
 		}
 	}
 	run.Set("programs", nProgs)
+	run.Set("go_generator_option_sets", []string{"(none)", "slim"})
+	run.Distinct("generator options: none")
+	run.Distinct("generator options: slim")
 	run.Set("programs_rejected_by_the_compiler_(C11)", rejected)
 	run.Set("programs_whose_emitted_go_does_not_compile_(C11)", uncompilable)
+	if rejected+uncompilable > 0 {
+		// the core pool is what a careful user writes: if the compiler rejects such
+		// a program or emits Go that does not build, there is no generated code
+		// that could encode anything the IDL declares
+		run.Violation("C02:core-program-not-compilable", fmt.Sprintf("%d core programs were rejected by the compiler and the emitted Go of %d does not build: %s", rejected, uncompilable, strings.Join(firstProblems, " | ")), map[string]interface{}{"problems": firstProblems})
+	}
 	if rejected+uncompilable > nProgs/2 {
 		run.Inconclusive(fmt.Sprintf("%d of %d core programs could not be compiled (see C11)", rejected+uncompilable, nProgs))
 	}
 	os.Exit(run.Finish())
+}
+
+// genOptsFor alternates the Go generator's options over the batches: the
+// "slim" option emits different Read/Write code (helpers in lib/go/encoder.go).
+func genOptsFor(bi int) string {
+	if bi%2 == 1 {
+		return "slim"
+	}
+	return ""
 }
 
 func runBatch(bi int, bs []progSpec, values int, seed int64) ([]*progResult, int, int, error) {
@@ -177,8 +214,11 @@ func runBatch(bi int, bs []progSpec, values int, seed int64) ([]*progResult, int
 		if _, err := idl.WriteProgram(prog, src, idl.DefaultStyle()); err != nil {
 			return nil, 0, 0, err
 		}
-		if r := h.Gen(ps.Sub, src, prog.Root().FileName(), ""); r.ExitCode != 0 {
+		if r := h.Gen(ps.Sub, src, prog.Root().FileName(), genOptsFor(bi)); r.ExitCode != 0 {
 			rejected++
+			probMu.Lock()
+			batchProblems[bi] = append(batchProblems[bi], ps.Sub+" (seed "+fmt.Sprint(ps.Seed)+", "+ps.Cfg+"): "+firstLines(strings.TrimSpace(r.Stdout+r.Stderr), 2))
+			probMu.Unlock()
 			os.RemoveAll(filepath.Join(h.Dir, "gen", ps.Sub))
 			continue
 		}
@@ -208,6 +248,13 @@ func runBatch(bi int, bs []progSpec, values int, seed int64) ([]*progResult, int
 		// drop the programs whose emitted Go does not compile (C11's verdict)
 		bad := map[string]bool{}
 		for _, m := range pkgErr.FindAllStringSubmatch(out, -1) {
+			if !bad[m[1]] {
+				probMu.Lock()
+				if i := strings.Index(out, m[0]); i >= 0 {
+					batchProblems[bi] = append(batchProblems[bi], firstLines(out[i:], 1))
+				}
+				probMu.Unlock()
+			}
 			bad[m[1]] = true
 		}
 		if len(bad) == 0 || attempt == 2 {
